@@ -17,7 +17,7 @@ import cache_trace as ct
 import cache_gen as cg
 import coqcheck
 
-PICKLABLE_BACKENDS = ['plain', 'dict0', 'null', 'dictarch', 'dictarch', 'file', 'dir']
+PICKLABLE_BACKENDS = ['plain', 'dict0', 'null', 'dictarch', 'dictarch', 'file', 'file-json', 'dir']
 
 
 class Clone(ct.Impl):
@@ -83,7 +83,7 @@ def run_case(cfg, ops, cut, tail, scratch):
         return problems, 0, [], orig
     if clone.f.__wrapped__ is orig.f.__wrapped__:
         pass
-    persistent = cfg['backend'] in ('file', 'dir')
+    persistent = cfg['backend'] in ('file', 'file-json', 'dir')
     recs = []
     steps = 0
     real_choice = _r.choice
@@ -136,7 +136,7 @@ def run_case(cfg, ops, cut, tail, scratch):
         for op in tail:
             clone.apply(op)
         after = strip(orig.observe())
-        persistent = cfg['backend'] in ('file', 'dir')
+        persistent = cfg['backend'] in ('file', 'file-json', 'dir')
         for fld in before:
             if fld in ('arch', 'swp') and persistent:
                 continue        # a persistent archive remains shared storage
@@ -147,7 +147,7 @@ def run_case(cfg, ops, cut, tail, scratch):
 
 def one(prop_seed, idx, thorough, scratch):
     rng = random.Random('C20-%d-%d' % (prop_seed, idx))
-    focus = {'backends': PICKLABLE_BACKENDS, 'p_special': 0.0, 'p_raising': 0.2,
+    focus = {'backends': PICKLABLE_BACKENDS, 'p_special': 0.0, 'p_raising': 0.2, 'p_float': 0.35,
              'weights': {'setarch': 0, 'archset': 3}}
     cfg = cg.gen_cfg(rng, focus, thorough)
     cfg['special'] = []
@@ -193,7 +193,7 @@ def main():
     sd = seed()
     rep = Report(prop)
     proof_ok, pinfo = coqcheck.proof_status(prop)
-    ntr = 4000 if thorough else 320
+    ntr = 6000 if thorough else 600
     results = []
     if pinfo.get('build_ok'):
         nproc = min(16, os.cpu_count() or 4)
